@@ -267,6 +267,9 @@ MC_Catalogue ==
     [] Solver = "cg" -> CGCat(0)
     [] Solver = "cgn" -> CGNCat(0)
     [] Solver = "power" -> PowerCatN(0)
+    [] Solver = "iter" -> LandweberCat(0) \cup KaczmarzCat(0) \cup PGCat(0) \cup MLEMCat(0) \cup SDCat(0)
+    [] Solver = "aliasdemo" -> { I \in ADMMCat(0) \cup DPDCCat(0) : I.f.k = "L1" }
+    [] Solver = "mono" -> CGCat(0) \cup CGNCat(0) \cup LandweberCat(0) \cup KaczmarzCat(0) \cup SDBTCat(0) \cup PowerCatN(0)
     [] Solver = "kkt-pdhg" -> KPDHGCat(0)
     [] Solver = "kkt-admm" -> KADMMCat(0)
     [] Solver = "kkt-dr" -> KDRCat(0)
@@ -302,6 +305,12 @@ ExportAux ==
                 [format |-> "TXT", charset |-> "UTF-8",
                  openOptions |-> <<"WRITE", "CREATE", "APPEND">>]).exitValue = 0
 ExportC12 == DenBound /\ ExportLine /\ ExportAux
-\* non-vacuity of the lattice search, per catalogue
-HasKKT == (k = 0 /\ pc = 0 /\ inst.solver \in NonSmooth) => TRUE
+\* deliberately false, used by the self-test to show that the property runs are not vacuous
+BogusFejerIncreases ==
+  [][(Stepped /\ inst.solver \in {"pdhg", "fb", "pg"} /\ Admissible(inst)) =>
+       \A w \in KKTSet(inst) : SLe(FejerQty(inst, ref, w), FejerQty(inst, ref', w))]_vars
+BogusKKTNotFixed ==
+  (k = 0 /\ pc = 0 /\ inst.solver \in NonSmooth) => kkt = {}
+BogusResidualNeverDecreases ==
+  [][(Stepped /\ inst.solver = "landweber") => SLe(Resid2(inst, ref.x), Resid2(inst, ref'.x))]_vars
 =============================================================================
